@@ -1,27 +1,6 @@
-(* Witnesses for the known findings of C32 (known_findings/C32.json): operations of the generated guard table with a path
-   that is not refused by the session-is-over error, or that writes before being refused. *)
+(* Witness for the remaining known finding of C32 (known_findings/C32.json).  The witnesses for SetInstance.is_empty,
+   SetInstance.create and Entity.flush were removed when /repo 743d82e repaired them (see Props/C32.v, C32_guarded_repaired). *)
 Require Import PonyV.Base.PyBase PonyV.Model.C32Guard PonyV.Gen.Guards PonyV.Proofs.C32Proofs.
-
-(* SetInstance.is_empty(): reaches database._exec_sql without a liveness guard: inside a new session the query runs
-   (and its result is merged into the dead object), outside any session the error is a plain TransactionError *)
-Theorem C32_refuted_is_empty :
-  exists ps p, In (Op_SetInstance_is_empty, ps) guard_table /\ In p ps /\
-    In (ORanQuery, true) (run st_new_session p) /\ In (OTxError, false) (run st_outside p).
-Proof. exact is_empty_refuted. Qed.
-Print Assumptions C32_refuted_is_empty.
-
-(* SetInstance.create(): refused, but never by the session-is-over error *)
-Theorem C32_refuted_create :
-  exists ps p, In (Op_SetInstance_create, ps) guard_table /\ In p ps /\
-    In (OTxError, false) (run st_outside p) /\ ~ In (OSessionOver, false) (run st_outside p).
-Proof. exact create_refuted. Qed.
-Print Assumptions C32_refuted_create.
-
-(* Entity.flush() of an object with unsaved changes: liveness is only asserted (AssertionError) *)
-Theorem C32_refuted_flush :
-  exists ps p, In (Op_Entity_flush, ps) guard_table /\ In p ps /\ forall st, run st p = [(OAssertion, false)].
-Proof. exact flush_refuted. Qed.
-Print Assumptions C32_refuted_flush.
 
 (* in-place change of a tracked Json/array value: the change is applied before the guard raises *)
 Theorem C32_refuted_tracked :
